@@ -123,7 +123,7 @@ Definition tout_eqb (x y : tout) : bool :=
   let '(r, s, m) := x in let '(r', s', m') := y in
   recs_eqb r r' && list_eqb Z.eqb s s' && mat_eqb m m'.
 
-Record fcase := mkf { f_in : tinput; f_obs : res tout }.
+Record fcase := mkf { f_in : tinput; f_obs : res tout; f_warned : bool (* a warning about absent variants was logged *) }.
 
 Definition model_file (c : fcase) : res tout := transform_haps (f_in c).
 
@@ -141,15 +141,29 @@ Definition avail (t : tinput) (v : hvar) : option (nat * gvar) :=
   | None => None
   end.
 
-(* ancestry label of (sample named s at file row k, strand, record gv at column j) *)
-Definition anc_label (t : tinput) (k : nat) (s : Z) (strand : bool) (j : nat) (gv : gvar) : option Z :=
+Definition uses_anc (t : tinput) : bool := match t_anc t with NoAnc => false | _ => true end.
+
+Definition f_sample_sel (t : tinput) (s : Z) : bool :=
+  match t_samp t with None => true | Some l => memZ s l end.
+
+(* POP label rows of the file's samples (dummies unless the source is the POP field) *)
+Definition pop_rows (t : tinput) : list sample_rows :=
+  match t_anc t with
+  | PopField m => m
+  | _ => map (fun _ => ([], [])) (t_samples t)
+  end.
+
+(* the requested samples of the file, in file order, each with its data rows and POP rows *)
+Definition f_rows (t : tinput) : list (Z * (sample_rows * sample_rows)) :=
+  filter (fun e : Z * (sample_rows * sample_rows) => f_sample_sel t (fst e))
+         (combine (t_samples t) (combine (t_data t) (pop_rows t))).
+
+(* ancestry label of (sample named s with POP row pr, strand, record gv at column j):
+   the POP field of that cell, or the .bp tract of the sample *by name* covering gv *)
+Definition anc_label (t : tinput) (s : Z) (pr : srow) (strand : bool) (j : nat) (gv : gvar) : option Z :=
   match t_anc t with
   | NoAnc => None
-  | PopField m =>
-      match nth_error m k with
-      | Some d => nth_error (if strand then snd d else fst d) j
-      | None => None
-      end
+  | PopField _ => nth_error pr j
   | BpFile bp =>
       match find_bp s bp with
       | Some tr => label_at (if strand then snd tr else fst tr) (gv_chrom gv) (gv_pos gv)
@@ -157,17 +171,16 @@ Definition anc_label (t : tinput) (k : nat) (s : Z) (strand : bool) (j : nat) (g
       end
   end.
 
-Definition uses_anc (t : tinput) : bool := match t_anc t with NoAnc => false | _ => true end.
-
-Definition fcell (t : tinput) (k : nat) (s : Z) (d : sample_rows) (strand : bool) (h : hap) : bool :=
+(* the cell the property prescribes for (sample s, strand with data row d and POP row pr, haplotype h) *)
+Definition fcell (t : tinput) (s : Z) (d pr : srow) (strand : bool) (h : hap) : bool :=
   forallb (fun v =>
              match avail t v with
              | Some (j, gv) =>
                  match index_of (hv_allele v) (gv_alleles gv) with
                  | Some i =>
-                     (cell (if strand then snd d else fst d) j =? i)
+                     (cell d j =? i)
                      && (if uses_anc t
-                         then match anc_label t k s strand j gv with
+                         then match anc_label t s pr strand j gv with
                               | Some l => l =? h_anc h
                               | None => false
                               end
@@ -186,26 +199,18 @@ Definition f_selected (t : tinput) : list hap :=
 Definition f_expected_haps (t : tinput) : list hap :=
   filter (f_transformable t) (real_haps (f_selected t)).
 
-Fixpoint enum_from {A} (k : nat) (l : list A) : list (nat * A) :=
-  match l with [] => [] | x :: r => (k, x) :: enum_from (S k) r end.
-
-Definition f_sample_sel (t : tinput) (s : Z) : bool :=
-  match t_samp t with None => true | Some l => memZ s l end.
-
 Definition f_expected (t : tinput) : tout :=
   let Hs := f_expected_haps t in
-  let srows := filter (fun e : nat * (Z * sample_rows) => f_sample_sel t (fst (snd e)))
-                      (enum_from 0 (combine (t_samples t) (t_data t))) in
+  let rs := f_rows t in
   (recs_of Hs,
-   map (fun e : nat * (Z * sample_rows) => fst (snd e)) srows,
-   map (fun e : nat * (Z * sample_rows) =>
-          let '(k, (s, d)) := e in
-          map (fun h => (fcell t k s d false h, fcell t k s d true h)) Hs) srows).
+   map fst rs,
+   map (fun e : Z * (sample_rows * sample_rows) =>
+          map (fun h => (fcell t (fst e) (fst (fst (snd e))) (fst (snd (snd e))) false h,
+                         fcell t (fst e) (snd (fst (snd e))) (snd (snd (snd e))) true h)) Hs) rs).
 
-(* inputs on which the run must succeed: a haplotype was selected, the wanted
-   records have distinct IDs, every listed allele of a transformable haplotype
-   exists, and (with ancestry) every loaded sample has an ancestry at every
-   record that is used *)
+(* inputs on which the run must succeed: a haplotype was selected, the records
+   have distinct IDs, every listed allele of a transformable haplotype exists, and
+   (with ancestry) every requested sample has an ancestry at every record that is used *)
 Definition f_wellformed (t : tinput) : bool :=
   let Hs := f_expected_haps t in
   match f_selected t with [] => false | _ => true end
@@ -216,28 +221,34 @@ Definition f_wellformed (t : tinput) : bool :=
             match index_of (hv_allele v) (gv_alleles gv) with Some _ => true | None => false end
         | None => false end) (h_vars h)) Hs
   && match t_anc t with
-     | BpFile bp => forallb (fun s => negb (f_sample_sel t s)
-                                      || match find_bp s bp with Some _ => true | None => false end)
-                            (t_samples t)
+     | BpFile bp => forallb (fun e : Z * (sample_rows * sample_rows) =>
+                               match find_bp (fst e) bp with Some _ => true | None => false end)
+                            (f_rows t)
      | _ => true
      end
   && (negb (uses_anc t)
-      || forallb (fun e : nat * (Z * sample_rows) =>
-           let '(k, (s, _)) := e in
-           negb (f_sample_sel t s)
-           || forallb (fun h => forallb (fun v =>
+      || forallb (fun e : Z * (sample_rows * sample_rows) =>
+           forallb (fun h => forallb (fun v =>
                 match avail t v with
                 | Some (j, gv) =>
-                    match anc_label t k s false j gv, anc_label t k s true j gv with
+                    match anc_label t (fst e) (fst (snd (snd e))) false j gv,
+                          anc_label t (fst e) (snd (snd (snd e))) true j gv with
                     | Some _, Some _ => true | _, _ => false end
                 | None => true end) (h_vars h)) (real_haps (f_selected t)))
-           (enum_from 0 (combine (t_samples t) (t_data t)))).
+           (f_rows t)).
+
+(* some selected haplotype is omitted from the output *)
+Definition f_omitted (t : tinput) : bool :=
+  negb (length (f_expected_haps t) =? length (real_haps (f_selected t)))%nat.
 
 Definition holds_file (c : fcase) : bool :=
   match f_obs c with
   | Ok out => tout_eqb out (f_expected (f_in c))
+              && (negb (f_omitted (f_in c)) || f_warned c)       (* omitted => reported *)
   | Err k => if k =? E_Unobserved then true else negb (f_wellformed (f_in c))
   end.
 
 Definition check_file (c : fcase) : bool * bool :=
-  (res_eqb tout_eqb (model_file c) (f_obs c), holds_file c).
+  (res_eqb tout_eqb (model_file c) (f_obs c)
+   && match f_obs c with Ok _ => Bool.eqb (warns_missing (f_in c)) (f_warned c) | Err _ => true end,
+   holds_file c).
